@@ -17,8 +17,8 @@ Theorem C02_lengths_and_statistics : forall docs bs, wf_docs docs ->
 Proof. exact C02_doclens_any. Qed.
 Print Assumptions C02_lengths_and_statistics.
 
-(* NOT proved in Coq: avg_doc_length = float32 rounding of total/n as numpy's mean computes it (validated by the
-   correspondence check against the correctly rounded quotient; see DESIGN.md C02). *)
+(* avg_doc_length as a binary32: C02_average_is_rounded_mean below (Score/AvgLen.v), for fewer than 2^24 tokens and rows.
+   That numpy's mean is a tree of float32 additions is read off numpy's source, not proved. *)
 Example C02_nonvacuous :
   match index false 1 [[];[1;2;1];[];[];[2]] with
   | AOk ix => doclengths ix = [0;3;0;0;1] /\ docfreq ix 1 = AOk 1 /\ docfreq ix 7 = AOk 0
